@@ -349,7 +349,7 @@ func timestamp(t time.Time) int64 {
 	if t.IsZero() {
 		return 0
 	}
-	return t.UnixNano() / int64(time.Millisecond)
+	return t.UnixMilli()
 }
 
 func packUint32(u uint32) (b [4]byte) {
